@@ -175,6 +175,43 @@ def gen_sweep(ctx, rng):
     return out
 
 
+def gen_reslot(rng):
+    """multi-scan sources whose quantization-table slots are redefined by DQT segments spliced in
+    between the scans; components sharing / not sharing slots"""
+    if rng.chance(3, 4):
+        name = rng.choice(["444", "422", "420", "440", "411", "gray"])
+        fac, cs = STD[name], (1 if name == "gray" else 3)
+    else:
+        name, cs, fac, _ = rng.choice([n for n in NONSTD if n[3] and n[0] != "gray2x2"])
+    nc = len(fac)
+    W = gen_dim(rng, 8 * max(f[0] for f in fac), rng.chance(1, 3))
+    H = gen_dim(rng, 8 * max(f[1] for f in fac), rng.chance(1, 3))
+    prec = 12 if rng.chance(1, 5) else 8
+    mode = rng.choice([0, 0, 1, 2, 3])
+    if nc == 1:
+        tq = [rng.choice([0, 0, 2])]
+    elif nc == 3:
+        tq = rng.choice([[0, 0, 0], [0, 0, 0], [0, 1, 1], [0, 1, 1], [0, 0, 1], [1, 0, 1], [0, 1, 2], [3, 3, 3]])
+    else:
+        tq = [rng.below(4) for _ in range(nc)]
+    nscan = nc if mode not in (2, 4) else (6 if nc == 1 else 10)
+    spl = []
+    for _ in range(rng.choice([0, 1, 1, 1, 2, 2])):
+        after = rng.range(1, nscan)
+        slot = rng.choice(tq) if rng.chance(5, 6) else rng.below(4)
+        spl.append([after, slot, rng.choice([0, 9, 9, 40])])
+    path = rng.choice([0, 0, 1, 2])
+    std = name in STD
+    xfs = [gen_xf(rng, path, W, H, fac, cs, std, force_plain=rng.chance(1, 2))]
+    if path == 0 and rng.chance(1, 4):
+        xfs.append(gen_xf(rng, path, W, H, fac, cs, std))
+    toks = [W, H, prec, cs, nc] + [v for f in fac for v in f] + [2, mode, rng.choice([75, 90, 97]), rng.next() % (1 << 40)]
+    toks += tq + [rng.below(2), len(spl)] + [v for s_ in spl for v in s_] + [1, path, len(xfs)]
+    for x in xfs:
+        toks += x
+    return "case " + " ".join(map(str, toks)), "reslot", {"identity": False}
+
+
 # ---------------------------------------------------------------- parsing
 def parse_case(line):
     t = [int(x) for x in line.split()[1:]]
@@ -182,8 +219,13 @@ def parse_case(line):
     p = 5
     fac = [(t[p + 2 * i], t[p + 2 * i + 1]) for i in range(nc)]
     p += 2 * nc
-    kind, mode, amp, seed, nst = t[p:p + 5]
-    p += 5
+    kind, mode, amp, seed = t[p:p + 4]
+    p += 4
+    if kind == 2:
+        p += nc + 1
+        p += 1 + 3 * t[p]
+    nst = t[p]
+    p += 1
     stages = []
     for _ in range(nst):
         path, n = t[p], t[p + 1]
@@ -206,10 +248,20 @@ def parse_image(s):
         return None
     W, H, cs, nc = a[:4]
     p = 4
+    slots = []
+    for _ in range(4):
+        if p < len(a) and a[p] == 1:
+            slots.append(a[p + 1:p + 65])
+            p += 65
+        else:
+            slots.append(None)
+            p += 1
     comps = []
     for _ in range(nc):
-        hs, vs, wb, hb = a[p:p + 4]
-        p += 4
+        if p + 5 > len(a):
+            return None
+        hs, vs, wb, hb, tq = a[p:p + 5]
+        p += 5
         q = a[p:p + 64]
         p += 64
         n = wb * hb * 64
@@ -217,10 +269,10 @@ def parse_image(s):
         p += n
         if len(blocks) != n:
             return None
-        comps.append({"hs": hs, "vs": vs, "wb": wb, "hb": hb, "q": q, "b": blocks})
+        comps.append({"hs": hs, "vs": vs, "wb": wb, "hb": hb, "tq": tq, "q": q, "b": blocks})
     if p != len(a):
         return None
-    return {"W": W, "H": H, "cs": cs, "comps": comps}
+    return {"W": W, "H": H, "cs": cs, "slots": slots, "comps": comps}
 
 
 def blk(c, x, y):
@@ -344,6 +396,8 @@ def run(ctx):
     cases += gen_sweep(ctx, rng)
     for i in range(ctx.n(4000, 40000)):
         cases.append(gen_case(rng, i))
+        if i % 5 == 0:
+            cases.append(gen_reslot(rng))
     return run_cases(ctx, cases, exes, drv, flavours)
 
 
@@ -452,6 +506,10 @@ def run_batch(ctx, cases, exes, drv, flavours, tot, base):
                     outs_i = []
             elif res.startswith("err Other"):
                 bad.append(("failure", "unexpected failure: " + res[:120]))
+            # slot re-use: refusing is only justified when some component's latched table left its slot
+            reused = [ci for ci, c in enumerate(src["comps"]) if src["slots"][c["tq"] & 3] != c["q"]]
+            if res == "err QuantReuse" and not reused:
+                bad.append(("qtable", "refused as re-use of a quantization slot although every component's table is still in its slot"))
             # perfect flag
             want_np = [x for x in xfs if x[1] and imperfect(src["W"], src["H"], fac, src["cs"], x)]
             if res.startswith("ok") and want_np:
@@ -462,9 +520,12 @@ def run_batch(ctx, cases, exes, drv, flavours, tot, base):
             for x, o in zip(xfs, outs_i):
                 op = x[0]
                 for ci, dc in enumerate(o["comps"]):
-                    sq = src["comps"][ci]["q"]
-                    if dc["q"] != (transpose64(sq) if op in TRANSPOSING else sq):
-                        bad.append(("qtable", "quantisation table of component %d is not the source table%s" % (ci, " transposed" if op in TRANSPOSING else "")))
+                    sq = src["comps"][ci]["q"]          # the table latched for this component in the source
+                    want = transpose64(sq) if op in TRANSPOSING else sq
+                    if dc["q"] != want or o["slots"][dc["tq"] & 3] != want:
+                        bad.append(("qtable", "component %d: the table of the output (slot %d) is not the table the source used for this "
+                                    "component%s%s" % (ci, dc["tq"], " transposed" if op in TRANSPOSING else "",
+                                                       "; its slot was redefined between the source's scans" if ci in reused else "")))
                 if not x[4]:      # no crop: direct geometric spec (trim only removes blocks)
                     m = dims_check(src, o, x) or spec_check(src, o, op, x[3])
                     if m:
